@@ -12,6 +12,8 @@ pub enum Listener {
     Tcp(TcpListener),
     #[cfg(unix)]
     Unix(unix_net::UnixListener),
+    #[cfg(tiny_http_verif)]
+    Mem(crate::verif_rt::net::MemListener),
 }
 impl Listener {
     pub(crate) fn local_addr(&self) -> std::io::Result<ListenAddr> {
@@ -19,6 +21,8 @@ impl Listener {
             Self::Tcp(l) => l.local_addr().map(ListenAddr::from),
             #[cfg(unix)]
             Self::Unix(l) => l.local_addr().map(ListenAddr::from),
+            #[cfg(tiny_http_verif)]
+            Self::Mem(l) => l.local_addr().map(ListenAddr::Mem),
         }
     }
 
@@ -29,6 +33,8 @@ impl Listener {
                 .map(|(conn, addr)| (Connection::from(conn), Some(addr))),
             #[cfg(unix)]
             Self::Unix(l) => l.accept().map(|(conn, _)| (Connection::from(conn), None)),
+            #[cfg(tiny_http_verif)]
+            Self::Mem(l) => l.accept().map(|conn| (Connection::Mem(conn), None)),
         }
     }
 }
@@ -50,6 +56,8 @@ pub(crate) enum Connection {
     Tcp(TcpStream),
     #[cfg(unix)]
     Unix(unix_net::UnixStream),
+    #[cfg(tiny_http_verif)]
+    Mem(crate::verif_rt::net::MemStream),
 }
 impl std::io::Read for Connection {
     fn read(&mut self, buf: &mut [u8]) -> std::io::Result<usize> {
@@ -57,6 +65,8 @@ impl std::io::Read for Connection {
             Self::Tcp(s) => s.read(buf),
             #[cfg(unix)]
             Self::Unix(s) => s.read(buf),
+            #[cfg(tiny_http_verif)]
+            Self::Mem(s) => s.read(buf),
         }
     }
 }
@@ -66,6 +76,8 @@ impl std::io::Write for Connection {
             Self::Tcp(s) => s.write(buf),
             #[cfg(unix)]
             Self::Unix(s) => s.write(buf),
+            #[cfg(tiny_http_verif)]
+            Self::Mem(s) => s.write(buf),
         }
     }
 
@@ -74,6 +86,8 @@ impl std::io::Write for Connection {
             Self::Tcp(s) => s.flush(),
             #[cfg(unix)]
             Self::Unix(s) => s.flush(),
+            #[cfg(tiny_http_verif)]
+            Self::Mem(s) => s.flush(),
         }
     }
 }
@@ -84,6 +98,8 @@ impl Connection {
             Self::Tcp(s) => s.peer_addr().map(Some),
             #[cfg(unix)]
             Self::Unix(_) => Ok(None),
+            #[cfg(tiny_http_verif)]
+            Self::Mem(s) => s.peer_addr(),
         }
     }
 
@@ -92,6 +108,8 @@ impl Connection {
             Self::Tcp(s) => s.shutdown(how),
             #[cfg(unix)]
             Self::Unix(s) => s.shutdown(how),
+            #[cfg(tiny_http_verif)]
+            Self::Mem(s) => s.shutdown(how),
         }
     }
 
@@ -100,6 +118,8 @@ impl Connection {
             Self::Tcp(s) => s.try_clone().map(Self::from),
             #[cfg(unix)]
             Self::Unix(s) => s.try_clone().map(Self::from),
+            #[cfg(tiny_http_verif)]
+            Self::Mem(s) => s.try_clone().map(Self::Mem),
         }
     }
 }
@@ -147,6 +167,8 @@ pub enum ListenAddr {
     IP(SocketAddr),
     #[cfg(unix)]
     Unix(unix_net::SocketAddr),
+    #[cfg(tiny_http_verif)]
+    Mem(crate::verif_rt::net::MemAddr),
 }
 impl ListenAddr {
     pub fn to_ip(self) -> Option<SocketAddr> {
@@ -154,6 +176,8 @@ impl ListenAddr {
             Self::IP(s) => Some(s),
             #[cfg(unix)]
             Self::Unix(_) => None,
+            #[cfg(tiny_http_verif)]
+            Self::Mem(_) => None,
         }
     }
 
@@ -165,6 +189,8 @@ impl ListenAddr {
         match self {
             Self::IP(_) => None,
             Self::Unix(s) => Some(s),
+            #[cfg(tiny_http_verif)]
+            Self::Mem(_) => None,
         }
     }
     #[cfg(not(unix))]
@@ -189,6 +215,8 @@ impl std::fmt::Display for ListenAddr {
             Self::IP(s) => s.fmt(f),
             #[cfg(unix)]
             Self::Unix(s) => std::fmt::Debug::fmt(s, f),
+            #[cfg(tiny_http_verif)]
+            Self::Mem(s) => std::fmt::Display::fmt(s, f),
         }
     }
 }
